@@ -183,6 +183,9 @@ namespace hs
         catch (Violation& v)
         {
             v.step       = step_;
+            // whatever goes wrong with a temporary_allocator nest is also a matter of C14
+            if (plan_->get("sut") == "temp" && v.prop.find("C14") == std::string::npos)
+                v.prop += ",C14";
             res.violated = true;
             res.v        = v;
             // abandon the objects (never run destructors on a state we no longer trust)
@@ -691,6 +694,7 @@ namespace hs
                 pc0 = S.o->reading(2, r.size);
         }
         std::size_t arena_cache0 = c.kind == K_ARENA ? S.o->reading(7) : 0;
+        std::size_t temp_next0   = c.kind == K_TEMP ? S.o->reading(1) : 0;
         auto        too_large0   = heap.stats_too_large_;
         auto        oom0 = h.oom_calls, bad0 = h.badsize_calls;
         heap.begin_op(c.faultable ? fail : 0);
@@ -775,6 +779,11 @@ namespace hs
             }
             // a request that failed because its one upstream call failed consumed nothing: the announced size
             // of the next growth must be what it was
+            if (c.kind == K_TEMP && fired && calls == 1 && S.o->reading(1) != temp_next0)
+                violate("C18,C03,C14", "next_capacity_changed_by_failed_growth",
+                        "the upstream call of this request failed, yet the temporary stack's next_capacity() went "
+                        "from %zu to %zu",
+                        temp_next0, S.o->reading(1));
             if (fired && calls == 1 && have_caps && c.kind != K_ITER && c.grows && S.o->reading(1) != next0)
                 violate("C18,C03", "next_capacity_changed_by_failed_growth",
                         "the upstream call of this request failed, yet next_capacity() went from %zu to %zu", next0,
